@@ -174,3 +174,4 @@ _add("C17", "the multi-file scan stops only on list exhausted / caller's limit /
 _add("C18", "loaded rule objects are never written after loading (rules.immutable).")
 _add("C19", "api.entry hands out only entries whose context it has not recycled.")
 _add("C20", "a resource's recycler is created once.")
+_add("C01", "every method of the entry that writes into its context (TraceError/TraceCallee path) is guarded by an ownership marker that the first Exit sets before the context is recycled.")
